@@ -378,7 +378,7 @@ pub proof fn lemma_touched_callresult(m: &naga::Module, f: &naga::Function, c: i
     }
 }
 
-//@fn wgsl.rs::naga_stages
+//@fn wgsl.rs::naga_stages props=C02,C03,C13
 fn naga_stages(stage: naga::ShaderStage) -> «(r:» wgpu::ShaderStages«)
     ensures r.bits == stage_bit(stage), // [C03.stage-bit] vertex -> VERTEX, fragment -> FRAGMENT, compute -> COMPUTE»
 {
@@ -422,7 +422,7 @@ pub fn entry_stages(module: &naga::Module) -> «(r:» wgpu::ShaderStages«)
 «}»
 //@end
 
-//@fn wgsl.rs::update_stages_blocks
+//@fn wgsl.rs::update_stages_blocks props=C02,C03,C13
 fn update_stages_blocks(
     module: &naga::Module,
     block: &naga::Block,
@@ -663,7 +663,7 @@ fn update_stages_blocks(
 }
 //@end
 
-//@fn wgsl.rs::update_stages
+//@fn wgsl.rs::update_stages props=C02,C03,C13
 fn update_stages(
     module: &naga::Module,
     function: &naga::Function,
@@ -827,7 +827,7 @@ fn update_stages(
 }
 //@end
 
-//@fn wgsl.rs::global_shader_stages
+//@fn wgsl.rs::global_shader_stages props=C02,C03,C13
 pub fn global_shader_stages(module: &naga::Module) -> «(r:» BTreeMap<String, wgpu::ShaderStages>«)
     requires wf(module), wf_entries(module),
     ensures
